@@ -12,17 +12,23 @@ Strength S2 (exit-branch theorems, every polytope state, every convex set):
 * `length_ge_depth` — the returned length is an extent of `M`, hence ≥ the penetration depth;
 * `minimal_under_inv_partial`, `gap_under_inv` — under the polytope invariant `EpaInv` the
   length is < depth + epsilon and the translated pair is within epsilon of contact.
-  **Partial**: preservation of `EpaInv` by the expansion step is *not* proved (and is false for
-  inward-wound simplices, after a `norm < 0.5` skip or a loose-edge overflow);
-* `inv_initial` — `EpaInv` holds at the start for an outward-wound tetrahedron (origin inside);
-  `inward_winding_all_normals_inward`, `wrong_winding_counterexample` — for the other 12 row
-  orders every initial normal points inward (the code never re-orients them);
-* `fixCcw_asIs_counterexample` — the winding repair, as executed, loses a vertex;
+  **Partial**: preservation of `EpaInv` by the expansion step is *not* proved (and is false
+  after a `norm < 0.5` skip or a loose-edge overflow);
+* `inv_initial` — `EpaInv` holds at the start for **every** complete simplex of non-zero volume
+  with the origin inside, whatever its row order (the code orients the rows first);
+  `initial_normals_outward` — all four initial normals then point away from the origin.
+  Before the upstream repair (`…_before_fix`, kept as regression statements about the old code):
+  `inv_initial_before_fix` needed the outward winding, `inward_winding_all_normals_inward_before_fix`
+  / `wrong_winding_counterexample_before_fix` — for the other 12 row orders every initial
+  normal pointed inward; `wrong_winding_fixed` — the same tetrahedron now satisfies `EpaInv`;
+* `fixCcw_keeps_vertices` — the winding repair permutes the three vertices;
+  `fixCcw_counterexample_before_fix` — before the repair it lost a vertex (numpy view);
 * `degenerate_simplex_asIs_counterexample` — a simplex with two valid rows (what gjk hands over
-  for two unit cubes offset by 1/2) makes the model return `mtv = 0` with `success = true`.
+  for two unit cubes offset by 1/2; zero volume, so the orientation step does nothing) makes the
+  model return `mtv = 0` with `success = true`: the residue the repair does not cover.
 Strength S3: `facesCertificate_sound_partial` — soundness of the checker run on returned faces.
 -/
-import D3.Proofs.EpaLoop
+import D3.Proofs.EpaInv
 import D3.Proofs.EpaCert
 import D3.Proofs.EpaDegenerate
 import Mathlib.Tactic.NormNum
@@ -53,24 +59,31 @@ example : IsUnitVec (⟨1, 0, 0⟩ : V) ∧ IsSupport cube ⟨1, 0, 0⟩ ⟨1, 1
   · intro x hx; obtain ⟨_, h, _⟩ := hx; simp only [V3.dot_def]; linarith
 
 /-- **C07, success exit of the executable model.** For every parameter set, every support
-oracle satisfying the contract, every non-degenerate simplex **of either winding** and every
+oracle satisfying the contract, every simplex of non-zero volume (any row order) and every
 number of iterations: if the model of `epa` returns `success = true`, the returned vector is
 `⟨w,n⟩ n` for a unit vector `n` and a support point `w` of `M` in direction `n`, so the
 conclusions of `success_separates` hold for it. -/
 theorem epa_success_separates (M : V → Prop) (p : Params ℝ) (supp : Nat → V → V)
     (hsupp : ∀ it d, IsSupport M d (supp it d)) (s0 s1 s2 s3 : V)
     (hnd : orient s0 s1 s2 s3 ≠ 0) (r : Result ℝ)
-    (h : epa p (fixCcwAsIs p.bias) supp s0 s1 s2 s3 = .ok r) (hs : r.success = true) :
+    (h : epa p supp s0 s1 s2 s3 = .ok r) (hs : r.success = true) :
     ∃ n w, IsUnitVec n ∧ IsSupport M n w ∧ r.mtv = some (mtvOf n w) ∧
       (∀ x, M x → V3.dot x n ≤ V3.dot w n) ∧
-      (∀ y, shifted M (mtvOf n w) y → V3.dot y n ≤ 0) := by
-  unfold epa at h
-  obtain ⟨i, f, j, hc, _, hm⟩ := loop_success _ _ _ _ r h hs
-  have hu : IsUnitVec f.n :=
-    loop_pred normalPred_isUnit (fixOk_asIs p.bias) _ _ _ _ r h (initFaces_unit hnd) f
-      (closest_spec hc).2.1
-  exact ⟨f.n, supp j f.n, hu, hsupp j f.n, hm, support_plane (hsupp j f.n),
-    shifted_below hu (hsupp j f.n)⟩
+      (∀ y, shifted M (mtvOf n w) y → V3.dot y n ≤ 0) :=
+  epaWith_success_separates M p (fixOk_cur p.bias) initFaces supp hsupp s0 s1 s2 s3
+    (initFaces_unit hnd) r h hs
+
+/-- the same statement held for the code before the upstream repair (separation never depended
+on the winding; only minimality did) -/
+theorem epa_success_separates_before_fix (M : V → Prop) (p : Params ℝ) (supp : Nat → V → V)
+    (hsupp : ∀ it d, IsSupport M d (supp it d)) (s0 s1 s2 s3 : V)
+    (hnd : orient s0 s1 s2 s3 ≠ 0) (r : Result ℝ)
+    (h : epa_asIs_before_fix p supp s0 s1 s2 s3 = .ok r) (hs : r.success = true) :
+    ∃ n w, IsUnitVec n ∧ IsSupport M n w ∧ r.mtv = some (mtvOf n w) ∧
+      (∀ x, M x → V3.dot x n ≤ V3.dot w n) ∧
+      (∀ y, shifted M (mtvOf n w) y → V3.dot y n ≤ 0) :=
+  epaWith_success_separates M p (fixOk_before_fix p.bias) initFaces_asIs_before_fix supp hsupp
+    s0 s1 s2 s3 (buildFaces_unit hnd) r h hs
 
 /-- **C07, returned length ≥ penetration depth.** `|mtv| = ⟨w,n⟩` is the extent of `M` along
 `n`; any number `D` that is a lower bound of the extents `h_M(m)` over all unit directions `m`
@@ -136,47 +149,29 @@ theorem gap_under_inv (M : V → Prop) (faces : List (Face ℝ)) (inv : EpaInv M
   rw [e2]
   nlinarith [h1, hconv]
 
-/-- **C07, the invariant at the start.** For a non-degenerate tetrahedron of points of a convex
-set `M` that contains the origin (barycentric weights `la … ld ≥ 0`), **wound outward**
-(`⟨(B−A)×(C−A), D−A⟩ < 0`), the four faces the code builds satisfy `EpaInv`. -/
+/-- **C07, the invariant at the start.** For every tetrahedron of non-zero volume (any row
+order: no winding hypothesis) of points of a convex set `M`, with the origin inside (barycentric
+weights `la … ld ≥ 0`), the four faces the code builds satisfy `EpaInv`. -/
 theorem inv_initial (M : V → Prop) (hM : ConvexSet M) (A B C D : V)
-    (hA : M A) (hB : M B) (hC : M C) (hD : M D) (ho : orient A B C D < 0)
+    (hA : M A) (hB : M B) (hC : M C) (hD : M D) (ho : orient A B C D ≠ 0)
     (la lb lc ld : ℝ) (h0 : OriginInside A B C D la lb lc ld)
     (hla : 0 ≤ la) (hlb : 0 ≤ lb) (hlc : 0 ≤ lc) (hld : 0 ≤ ld) :
     EpaInv M (initFaces A B C D) := by
-  have hne : orient A B C D ≠ 0 := ne_of_lt ho
-  obtain ⟨p1, p2, p3, p4⟩ := raw_normals_pos hne
-  refine ⟨initFaces_unit hne, ?_, ?_⟩
-  · intro g hg
-    simp only [initFaces, List.mem_cons, List.not_mem_nil, or_false] at hg
-    rcases hg with rfl | rfl | rfl | rfl
-    · rw [faceDist_mkFace p1, raw_dist_ABC h0]
-      exact div_nonneg (by nlinarith) (V3.norm_nonneg _)
-    · rw [faceDist_mkFace p2, raw_dist_ACD h0]
-      exact div_nonneg (by nlinarith) (V3.norm_nonneg _)
-    · rw [faceDist_mkFace p3, raw_dist_ADB h0]
-      exact div_nonneg (by nlinarith) (V3.norm_nonneg _)
-    · rw [faceDist_mkFace p4, raw_dist_BDC h0]
-      exact div_nonneg (by nlinarith) (V3.norm_nonneg _)
-  · intro x hx
-    have i1 := (inner_mkFace_iff p1 x).mp (hx _ (by simp [initFaces]))
-    have i2 := (inner_mkFace_iff p2 x).mp (hx _ (by simp [initFaces]))
-    have i3 := (inner_mkFace_iff p3 x).mp (hx _ (by simp [initFaces]))
-    have i4 := (inner_mkFace_iff p4 x).mp (hx _ (by simp [initFaces]))
-    obtain ⟨bx, by', bz, bs⟩ := barycentric A B C D x
-    generalize orient A B C D = Δ at *
-    generalize V3.dot (nABC A B C) (x - A) = hd at *
-    generalize V3.dot (nABC A C D) (x - A) = hb at *
-    generalize V3.dot (nABC A D B) (x - A) = hc at *
-    generalize V3.dot (nABC B D C) (x - B) = ha at *
-    have key := hM.convex4 A B C D hA hB hC hD (ha / Δ) (hb / Δ) (hc / Δ) (hd / Δ)
-      (div_nonneg_of_nonpos i4 ho.le) (div_nonneg_of_nonpos i2 ho.le)
-      (div_nonneg_of_nonpos i3 ho.le) (div_nonneg_of_nonpos i1 ho.le)
-      (by field_simp; linarith)
-    have e : ha / Δ * A + hb / Δ * B + hc / Δ * C + hd / Δ * D = x := by
-      apply V3.ext' <;> simp only [V3.add_x, V3.add_y, V3.add_z, V3.smul_x, V3.smul_y, V3.smul_z]
-        <;> field_simp <;> linarith
-    rw [e] at key; exact key
+  rcases initFaces_oriented A B C D with ⟨e, hle⟩ | ⟨e, hlt⟩ <;> rw [e]
+  · exact buildFaces_inv_of_outward M hM A B C D hA hB hC hD (lt_of_le_of_ne hle ho)
+      la lb lc ld h0 hla hlb hlc hld
+  · exact buildFaces_inv_of_outward M hM A C B D hA hC hB hD hlt
+      la lc lb ld h0.swap12 hla hlc hlb hld
+
+/-- **C07, the invariant at the start, before the upstream repair.** The old construction (rows
+as they come) satisfied `EpaInv` only under the additional hypothesis that the rows are wound
+outward (`⟨(B−A)×(C−A), D−A⟩ < 0`); see `wrong_winding_counterexample_before_fix`. -/
+theorem inv_initial_before_fix (M : V → Prop) (hM : ConvexSet M) (A B C D : V)
+    (hA : M A) (hB : M B) (hC : M C) (hD : M D) (ho : orient A B C D < 0)
+    (la lb lc ld : ℝ) (h0 : OriginInside A B C D la lb lc ld)
+    (hla : 0 ≤ la) (hlb : 0 ≤ lb) (hlc : 0 ≤ lc) (hld : 0 ≤ ld) :
+    EpaInv M (initFaces_asIs_before_fix A B C D) :=
+  buildFaces_inv_of_outward M hM A B C D hA hB hC hD ho la lb lc ld h0 hla hlb hlc hld
 
 /-- the ball-free convex set used in the examples: the cube scaled by 2 -/
 def cube2 : V → Prop := fun p => -2 ≤ p.x ∧ p.x ≤ 2 ∧ -2 ≤ p.y ∧ p.y ≤ 2 ∧ -2 ≤ p.z ∧ p.z ≤ 2
@@ -197,84 +192,104 @@ example : EpaInv cube2 (initFaces ⟨1, 0, 0⟩ ⟨0, 1, 0⟩ ⟨0, 0, 1⟩ ⟨-
     ⟨by norm_num, by norm_num, by norm_num, by norm_num⟩
     (by norm_num) (by norm_num) (by norm_num) (by norm_num)
 
-/-- **C07, the other twelve row orders.** For a tetrahedron with the origin strictly inside
-whose rows are wound the other way (`⟨(B−A)×(C−A), D−A⟩ > 0`) every one of the four initial
-faces has a negative distance `⟨v0, n⟩`: all as-is normals point **towards** the origin. The code
-never re-orients them (`orient_swap01`: exchanging two rows flips the sign, so exactly half of
-the row orders of any tetrahedron are of this kind). -/
-theorem inward_winding_all_normals_inward (A B C D : V) (ho : 0 < orient A B C D)
+/-- **C07, initial normals point outward for every row order.** For a tetrahedron of non-zero
+volume with the origin strictly inside, every one of the four initial faces has a positive
+distance `⟨v0, n⟩`, whichever of the 24 row orders is handed over. -/
+theorem initial_normals_outward (A B C D : V) (ho : orient A B C D ≠ 0)
     (la lb lc ld : ℝ) (h0 : OriginInside A B C D la lb lc ld)
     (hla : 0 < la) (hlb : 0 < lb) (hlc : 0 < lc) (hld : 0 < ld) :
-    ∀ f ∈ initFaces A B C D, faceDist f < 0 := by
-  have hne : orient A B C D ≠ 0 := ne_of_gt ho
-  obtain ⟨p1, p2, p3, p4⟩ := raw_normals_pos hne
-  intro g hg
-  simp only [initFaces, List.mem_cons, List.not_mem_nil, or_false] at hg
-  rcases hg with rfl | rfl | rfl | rfl
-  · rw [faceDist_mkFace p1, raw_dist_ABC h0]
-    exact div_neg_of_neg_of_pos (by nlinarith) (norm_pos_of_normSq_pos p1)
-  · rw [faceDist_mkFace p2, raw_dist_ACD h0]
-    exact div_neg_of_neg_of_pos (by nlinarith) (norm_pos_of_normSq_pos p2)
-  · rw [faceDist_mkFace p3, raw_dist_ADB h0]
-    exact div_neg_of_neg_of_pos (by nlinarith) (norm_pos_of_normSq_pos p3)
-  · rw [faceDist_mkFace p4, raw_dist_BDC h0]
-    exact div_neg_of_neg_of_pos (by nlinarith) (norm_pos_of_normSq_pos p4)
+    ∀ f ∈ initFaces A B C D, 0 < faceDist f := by
+  rcases initFaces_oriented A B C D with ⟨e, hle⟩ | ⟨e, hlt⟩ <;> rw [e]
+  · exact buildFaces_dist_pos_of_outward A B C D (lt_of_le_of_ne hle ho) la lb lc ld h0
+      hla hlb hlc hld
+  · exact buildFaces_dist_pos_of_outward A C B D hlt la lc lb ld h0.swap12 hla hlc hlb hld
 
-/-- **C07, as-is counterexample to the outward-normal invariant.** The rational tetrahedron
-`(0,1,0), (1,0,0), (0,0,1), (−1,−1,−1)` (the one of the example above with rows 0 and 1
-exchanged) has the origin strictly inside, yet all four initial normals point inward, so
-`EpaInv` fails at the start for any `M`. -/
-theorem wrong_winding_counterexample :
+/-- **C07, the other twelve row orders before the upstream repair.** For a tetrahedron with the
+origin strictly inside whose rows are wound the other way (`⟨(B−A)×(C−A), D−A⟩ > 0`) every one
+of the four faces the old code built had a negative distance `⟨v0, n⟩`: all normals pointed
+**towards** the origin and were never re-oriented (`orient_swap01`: exchanging two rows flips
+the sign, so exactly half of the row orders of any tetrahedron were of this kind). -/
+theorem inward_winding_all_normals_inward_before_fix (A B C D : V) (ho : 0 < orient A B C D)
+    (la lb lc ld : ℝ) (h0 : OriginInside A B C D la lb lc ld)
+    (hla : 0 < la) (hlb : 0 < lb) (hlc : 0 < lc) (hld : 0 < ld) :
+    ∀ f ∈ initFaces_asIs_before_fix A B C D, faceDist f < 0 :=
+  buildFaces_dist_neg_of_inward A B C D ho la lb lc ld h0 hla hlb hlc hld
+
+/-- **C07, counterexample to the outward-normal invariant before the upstream repair.** The
+rational tetrahedron `(0,1,0), (1,0,0), (0,0,1), (−1,−1,−1)` has the origin strictly inside, yet
+all four normals of the old construction pointed inward, so `EpaInv` failed at the start for
+any `M`. -/
+theorem wrong_winding_counterexample_before_fix :
     ∃ A B C D : V, (∃ la lb lc ld : ℝ, OriginInside A B C D la lb lc ld ∧ 0 < la ∧ 0 < lb ∧
         0 < lc ∧ 0 < ld) ∧
-      (∀ f ∈ initFaces A B C D, faceDist f < 0) ∧
-      ∀ M : V → Prop, ¬ EpaInv M (initFaces A B C D) := by
-  refine ⟨⟨0, 1, 0⟩, ⟨1, 0, 0⟩, ⟨0, 0, 1⟩, ⟨-1, -1, -1⟩, ?_, ?_, ?_⟩
+      (∀ f ∈ initFaces_asIs_before_fix A B C D, faceDist f < 0) ∧
+      ∀ M : V → Prop, ¬ EpaInv M (initFaces_asIs_before_fix A B C D) := by
+  have h := inward_winding_all_normals_inward_before_fix (⟨0, 1, 0⟩ : V) ⟨1, 0, 0⟩ ⟨0, 0, 1⟩
+    ⟨-1, -1, -1⟩ (by norm_num [orient, V3.cross, V3.dot_def])
+    (1 / 4) (1 / 4) (1 / 4) (1 / 4) ⟨by norm_num, by norm_num, by norm_num, by norm_num⟩
+    (by norm_num) (by norm_num) (by norm_num) (by norm_num)
+  refine ⟨⟨0, 1, 0⟩, ⟨1, 0, 0⟩, ⟨0, 0, 1⟩, ⟨-1, -1, -1⟩, ?_, h, ?_⟩
   · exact ⟨1 / 4, 1 / 4, 1 / 4, 1 / 4, ⟨by norm_num, by norm_num, by norm_num, by norm_num⟩,
       by norm_num, by norm_num, by norm_num, by norm_num⟩
-  · exact inward_winding_all_normals_inward _ _ _ _ (by norm_num [orient, V3.cross, V3.dot_def])
-      (1 / 4) (1 / 4) (1 / 4) (1 / 4) ⟨by norm_num, by norm_num, by norm_num, by norm_num⟩
-      (by norm_num) (by norm_num) (by norm_num) (by norm_num)
   · intro M inv
-    have h := inward_winding_all_normals_inward (⟨0, 1, 0⟩ : V) ⟨1, 0, 0⟩ ⟨0, 0, 1⟩ ⟨-1, -1, -1⟩
-      (by norm_num [orient, V3.cross, V3.dot_def])
-      (1 / 4) (1 / 4) (1 / 4) (1 / 4) ⟨by norm_num, by norm_num, by norm_num, by norm_num⟩
-      (by norm_num) (by norm_num) (by norm_num) (by norm_num)
     have f0 : mkFace (⟨0, 1, 0⟩ : V) ⟨1, 0, 0⟩ ⟨0, 0, 1⟩ ∈
-        initFaces (⟨0, 1, 0⟩ : V) ⟨1, 0, 0⟩ ⟨0, 0, 1⟩ ⟨-1, -1, -1⟩ := by simp [initFaces]
+        initFaces_asIs_before_fix (⟨0, 1, 0⟩ : V) ⟨1, 0, 0⟩ ⟨0, 0, 1⟩ ⟨-1, -1, -1⟩ := by
+      simp [initFaces_asIs_before_fix, buildFaces]
     have := inv.nonneg _ f0
     have := h _ f0
     linarith
 
-/-- **C07, as-is counterexample for the winding repair.** With the library's bias, on the face
-`(1,0,0), (0,1,0), (0,0,1)` with stored normal `(−1,0,0)` the flip condition holds; the code as
-executed (swap through numpy views) returns a face without the vertex `(1,0,0)`, whereas the
-documented behaviour keeps all three vertices. -/
-theorem fixCcw_asIs_counterexample :
+/-- **C07, the same tetrahedron after the repair.** For the row order of
+`wrong_winding_counterexample_before_fix` the current construction satisfies `EpaInv` (here for
+the cube `[-2,2]³`) and all four normals point outward. -/
+theorem wrong_winding_fixed :
+    EpaInv cube2 (initFaces ⟨0, 1, 0⟩ ⟨1, 0, 0⟩ ⟨0, 0, 1⟩ ⟨-1, -1, -1⟩) ∧
+    ∀ f ∈ initFaces (⟨0, 1, 0⟩ : V) ⟨1, 0, 0⟩ ⟨0, 0, 1⟩ ⟨-1, -1, -1⟩, 0 < faceDist f :=
+  ⟨inv_initial cube2 cube2_convex _ _ _ _ (by norm_num [cube2]) (by norm_num [cube2])
+      (by norm_num [cube2]) (by norm_num [cube2])
+      (by norm_num [orient, V3.cross, V3.dot_def]) (1 / 4) (1 / 4) (1 / 4) (1 / 4)
+      ⟨by norm_num, by norm_num, by norm_num, by norm_num⟩
+      (by norm_num) (by norm_num) (by norm_num) (by norm_num),
+    initial_normals_outward _ _ _ _ (by norm_num [orient, V3.cross, V3.dot_def])
+      (1 / 4) (1 / 4) (1 / 4) (1 / 4) ⟨by norm_num, by norm_num, by norm_num, by norm_num⟩
+      (by norm_num) (by norm_num) (by norm_num) (by norm_num)⟩
+
+/-- **C07, the winding repair keeps the face.** `fix_ccw_normal_direction` returns a face with
+the same three vertices (0 and 1 exchanged when the flip condition holds). -/
+theorem fixCcw_keeps_vertices (bias : ℝ) (f : Face ℝ) :
+    (faceVerts (fixCcw bias f)).Perm (faceVerts f) :=
+  fixCcw_verts_perm bias f
+
+/-- **C07, counterexample for the winding repair before the upstream repair.** With the
+library's bias, on the face `(1,0,0), (0,1,0), (0,0,1)` with stored normal `(−1,0,0)` the flip
+condition holds; the old code (swap through numpy views) returned a face without the vertex
+`(1,0,0)`, whereas the current code keeps all three vertices. -/
+theorem fixCcw_counterexample_before_fix :
     ∃ f : Face ℝ,
-      f.a ∉ faceVerts (fixCcwAsIs Gen.epa__fix_ccw_normal_direction__bias f) ∧
-      f.a ∈ faceVerts (fixCcwFixed Gen.epa__fix_ccw_normal_direction__bias f) := by
+      f.a ∉ faceVerts (fixCcw_asIs_before_fix Gen.epa__fix_ccw_normal_direction__bias f) ∧
+      f.a ∈ faceVerts (fixCcw Gen.epa__fix_ccw_normal_direction__bias f) := by
   refine ⟨⟨⟨1, 0, 0⟩, ⟨0, 1, 0⟩, ⟨0, 0, 1⟩, ⟨-1, 0, 0⟩⟩, ?_, ?_⟩
-  · rw [fixCcwAsIs_flip (by norm_num [V3.dot_def, Gen.epa__fix_ccw_normal_direction__bias])]
+  · rw [fixCcw_asIs_before_fix_flip
+      (by norm_num [V3.dot_def, Gen.epa__fix_ccw_normal_direction__bias])]
     simp [faceVerts]
-  · rw [fixCcwFixed_flip (by norm_num [V3.dot_def, Gen.epa__fix_ccw_normal_direction__bias])]
+  · rw [fixCcw_flip (by norm_num [V3.dot_def, Gen.epa__fix_ccw_normal_direction__bias])]
     simp [faceVerts]
 
 /-- **C07, as-is counterexample for a degenerate simplex.** For two unit cubes offset by 1/2
 along x, gjk reports an overlap but ends with two valid simplex rows `(1/2,0,0)`, `(−3/2,0,0)`;
 with the remaining rows zero, the model of `epa` (default parameters, any colliders) returns
 `mtv = 0` with `success = true` in its first iteration — although the penetration depth of the
-cubes is 1/2 (`length_ge_depth` would demand `|mtv| ≥ 1/2`; its hypothesis that the closest
+cubes is 1/2. The simplex has zero volume, so the orientation step of the upstream repair does
+not apply (`length_ge_depth` would demand `|mtv| ≥ 1/2`; its hypothesis that the closest
 face's normal is a unit vector fails: the stored "normal" is the zero vector). -/
 theorem degenerate_simplex_asIs_counterexample (supp : Nat → V → V) :
     ∃ r : Result ℝ,
-      epa defaultParams (fixCcwAsIs Gen.epa__fix_ccw_normal_direction__bias) supp
-        ⟨1 / 2, 0, 0⟩ ⟨-3 / 2, 0, 0⟩ ⟨0, 0, 0⟩ ⟨0, 0, 0⟩ = .ok r ∧
+      epa defaultParams supp ⟨1 / 2, 0, 0⟩ ⟨-3 / 2, 0, 0⟩ ⟨0, 0, 0⟩ ⟨0, 0, 0⟩ = .ok r ∧
       r.success = true ∧ r.mtv = some ⟨0, 0, 0⟩ := by
   have he : (0 : ℝ) < (defaultParams : Params ℝ).eps := by
     norm_num [defaultParams, Gen.epa__epa__epsilon]
   have hk : (defaultParams : Params ℝ).maxIter = 63 + 1 := rfl
-  unfold epa
+  unfold epa epaWith
   rw [hk]
   unfold loop
   rw [closest_degenerate]
